@@ -621,10 +621,9 @@ def check(ctx):
     n13 = 0
     for rel13 in (OER, 'asn1tools/codecs/per.py'):
         mt13 = model.mod(rel13).classes.get('MembersType')
-        f13 = mt13.find_method('encode_additions')[1] if mt13 and mt13.find_method('encode_additions') else None
-        if f13 is None:
+        if mt13 is None:
             continue
-        for tr in [n_ for n_ in walk_no_nested(f13) if isinstance(n_, ast.Try)]:
+        for f13, tr in [(g_, n_) for g_ in mt13.methods.values() for n_ in walk_no_nested(g_) if isinstance(n_, ast.Try)]:      # wherever the collecting loop lives
             swallows = any(all(isinstance(s_, ast.Pass) for s_ in h_.body) for h_ in tr.handlers)
             shifted = [a_.target.id for lp_ in tr.body if isinstance(lp_, ast.For) for a_ in ast.walk(lp_) if isinstance(a_, ast.AugAssign) and isinstance(a_.op, ast.LShift)
                        and isinstance(a_.target, ast.Name) and isinstance(a_.value, ast.Constant) and a_.value.value == 1]
@@ -644,6 +643,41 @@ def check(ctx):
                               'present instead of d, and the decoder reads d\'s octets as e' % var13, stmt='presence bits not moved to position')
     if n13 < 1:
         ctx.instance('C06.R13', 'no encode_additions loop inside a swallowing try found', 'undecided', nontrivial=False)
+
+    # ---- R14: the fixed-size form of a character string (no length determinant) writes and reads `SIZE` *octets*: it is right only where one character is one octet.  The
+    #      classes the compiler hands a size range to are therefore the single-octet ones; a variable-width encoding (UTF-8) makes encoder and decoder disagree as soon as a
+    #      character needs two octets, and X.696 27 gives UTF8String a length determinant in every case.
+    ctx.rule('C06.R14', 'the fixed-size string form (SIZE taken as a number of octets) is selected only for classes whose ENCODING has one octet per character')
+    SINGLE = ('ascii', 'latin-1', 'latin1', 'iso-8859-1', 'us-ascii')
+    ocomp = model.mod(OER).classes.get('Compiler')
+    kms = model.mod(OER).classes.get('KnownMultiplierStringType')
+    n14 = 0
+    if ocomp is None or kms is None:
+        raise AnalysisError('oer.Compiler / KnownMultiplierStringType vanished')
+    sized_init = any(isinstance(a_, ast.Assign) and any(isinstance(t_, ast.Attribute) and t_.attr == 'number_of_bytes' for t_ in a_.targets) and not (isinstance(a_.value, ast.Constant) and a_.value.value is None)
+                     for a_ in walk_no_nested(kms.methods['__init__'])) if '__init__' in kms.methods else False
+    for g_ in ocomp.methods.values():
+        for c_ in walk_no_nested(g_):
+            if not (isinstance(c_, ast.Call) and isinstance(c_.func, ast.Name)):
+                continue
+            k_ = model.mod(OER).classes.get(c_.func.id)
+            if k_ is None or kms not in k_.mro():
+                continue
+            takes_size = len(c_.args) > 1 or any(isinstance(a_, ast.Starred) for a_ in c_.args) or any(kw.arg in ('minimum', 'maximum') for kw in c_.keywords)
+            if not takes_size:
+                continue
+            n14 += 1
+            enc_ = next((kk.attrs['ENCODING'] for kk in k_.mro() if 'ENCODING' in kk.attrs), None)
+            encv = enc_.value if isinstance(enc_, ast.Constant) else None
+            ok14 = (encv in SINGLE) or not sized_init
+            ctx.instance('C06.R14', '%s is compiled with its SIZE range; ENCODING %r' % (k_.qname, encv), 'one octet per character' if ok14 else 'VIOLATION', node=c_, file=OER)
+            if not ok14:
+                ctx.violation('C06.R14', OER, c_, '%s::Compiler.compile_type[%s]' % (OER, k_.name),
+                              '%s (ENCODING %r) is given the SIZE range, so `SIZE (n)` selects the form without a length determinant with n taken as the number of octets: a value with a '
+                              'character of two octets is written with n + 1 octets and read back with n (`UTF8String (SIZE (2))`, "\u00e5b" -> c3 a5 62 -> "\u00e5"); X.696 27 gives this type a '
+                              'length determinant always' % (k_.name, encv), stmt='fixed-size form for %s' % k_.name)
+    if n14 < 1:
+        ctx.instance('C06.R14', 'no string class is constructed with a size range by name (table-driven dispatch)', 'undecided', nontrivial=False)
 
 MUTANTS = [
     dict(name='OER presence bits not moved after an early stop', file=OER,
